@@ -65,6 +65,7 @@ package builder
 //@ spec def allStored(cs []data/builder.fileShardMeta) bool = forall i int :: 0 <= i && i < len(cs) ==> (cs[i].link != nil ==> stored(cs[i].link))
 
 //@ func data/builder.packFileChildren
+//@ ensures node-or-error: (err == nil ==> result != nil) && (err != nil ==> result == nil)
 //@ prop C01 C11
 //@ requires children-stored: allStored(children)
 //@ at call data/builder.BuildUnixFSDirectoryEntry#1 assert child-stored: callee_hash != nil ==> stored(callee_hash)
@@ -336,7 +337,16 @@ package builder
 // the order of the three fields), and nothing else is assembled.
 //@ func data/builder.BuildUnixFSDirectoryEntry
 //@ prop C02 C11 C18
+//@ ensures entry-or-error: (err == nil ==> result != nil) && (err != nil ==> result == nil)
 //@ at call (github.com/ipld/go-ipld-prime/datamodel.NodeAssembler).AssignLink#0 assert the-target-goes-under-Hash: asmFor(callee_recv) == "Hash" && callee_a0 == old(hash)
 //@ at call (github.com/ipld/go-ipld-prime/datamodel.NodeAssembler).AssignInt#0 assert the-size-goes-under-Tsize: asmFor(callee_recv) == "Tsize" && callee_a0 == old(size)
 //@ at call (github.com/ipld/go-ipld-prime/datamodel.NodeAssembler).AssignString#0 assert the-name-goes-under-Name: asmOf(callee_recv) == nil ==> asmFor(callee_recv) == "Name" && callee_v == old(name)
 //@ at call (github.com/ipld/go-ipld-prime/datamodel.NodeAssembler).AssignString#0 assert only-the-three-link-fields-are-keys: asmOf(callee_recv) != nil ==> callee_v == "Hash" || callee_v == "Name" || callee_v == "Tsize"
+
+// Node or error, never neither: the assembling helpers pass every assembler failure on.
+//@ func data/builder.PermissionsString
+//@ prop C09
+//@ may_panic
+//@ calls github.com/ipld/go-ipld-prime/fluent/qp.MapEntry
+//@ at call github.com/ipld/go-ipld-prime/fluent/qp.MapEntry#1 assert sets-the-Mode-field: callee_k == "Mode"
+//@ at call github.com/ipld/go-ipld-prime/fluent/qp.Int#1 assert with-the-low-twelve-bits-of-the-parsed-mode: 0 <= callee_i && callee_i <= 4095
